@@ -11,6 +11,11 @@ type UnwrapAggPlanner struct {
 
 func (l *UnwrapAggPlanner) Process(ctx *shared.PlannerContext,
 	in chan []shared.LogEntry) (chan []shared.LogEntry, error) {
+	switch l.Function {
+	case "stddev_over_time", "stdvar_over_time":
+		// not implemented by addValue: say so instead of answering with an empty matrix
+		return nil, &shared.NotSupportedError{Msg: l.Function + " is not supported for this query yet."}
+	}
 	return l.process(ctx, in, aggregatorPlannerOps{
 		addValue: l.addValue,
 		finalize: l.finalize,
